@@ -20,6 +20,8 @@ def run(seed, patch, props, expect):
         outs = []
         for p in props:
             env = dict(os.environ, PYVC_REPO=scratch, PYVC_OUTDIR=os.path.join(scratch, 'out'), PYVC_JOBS='4')
+            if expect == 1:
+                env['PYVC_SECOND'] = '0'       # a seed is expected to fail: the second attempt (load independence) only costs time here
             os.makedirs(os.path.join(scratch, 'out'), exist_ok=True)
             c = subprocess.run([os.path.join(HERE, 'check'), p], capture_output=True, text=True, env=env, cwd=HERE)
             lines = [l[:160] for l in c.stdout.splitlines() if l.startswith(('VIOLATION', 'UNDECIDED', 'CHECKER'))]
